@@ -343,6 +343,31 @@ for _k, _v in {
     "C16": " Also: parse_expr returns only type-checked trees (typed-tree), the invariant the counted typing unwraps rest on.",
 }.items():
     ADDED[_k] = (ADDED.get(_k, "") + _v).strip()
+# rounds 15 / 16 and the observations triaged after them (session 7)
+for _k, _v in {
+    "C01": " Also: the folder drops no operand that would run (fold-keeps-operands, shared with C15); statement keywords of the grammar are words (keyword-boundary).",
+    "C02": " Also: a Void sub-expression is refused where its value is consumed (void-value); `Self` is typed like its class (self-type); a fixed-shape list is read as an open one only "
+           "against the picked element type (coerce-open); a character of a str is not an assignment target (str-slot); `K ?= K?` is refused; every capture walk compares before it raises the depth (net-dependencies).",
+    "C03": " Also: the operator table accepts no cell the interpreter refuses by kind (op-table, shared with C02); signature_check reaches list element types (signature-invariance|elements).",
+    "C04": " Also: the in-memory builder and the file loader bind a repeated label to the same definition (function-table).",
+    "C05": " Also: every path of the generator of a binary operator lays down the applying instruction once, after both operands (operator-applied).",
+    "C06": " Also: the negation of every bigint text is a bigint (the unsuffixed literal -2147483648 is the parser's business).",
+    "C07": " Also: an execution of a function is a new run in a new frame (fresh-activation); parameters are supplies of their own function only (parameter-scope).",
+    "C08": " Also: the target path of `a.f op= v` is laid down once (target-once); `Self(..)` reaches the class wherever it is bound (self-constructor: known finding for classes of a function body).",
+    "C09": " Also (operands): the operand-stack shape - handler stack effects (63 handlers evaluated on a scripted stack of 0..4 values) against the emitted words of 79 generator shapes, "
+           "by induction over the AST (code(expression): empty stack -> one value): every instruction has a successful handler path at the height it is met with, children start on an empty stack, "
+           "the word ends with the hypothesis' height. Index / DotChain code, unary minus and the argument re-load loop are not followed.",
+    "C10": " Also: `modify` reads the constness of the captured declaration it writes (modify-target-const); root_ident follows `or`; the alias of a class is read-only; the flag keywords are words (keyword-boundary); "
+           "a module test in a helper predicate is evaluated, not matched.",
+    "C11": " Also: writes through a module or any (captured) alias of it are refused (exports-read-only, shared with C10); the entry path of the CLI is spelled like an import (module-identity|entry); import keywords are words.",
+    "C12": " Also: the position of a `get` is that of the `get` token (parser|token); `nil` is a word.",
+    "C13": " Also: member accesses are answered by the interpreter (method-dispatch); `==` / index_of are not offered where an element has no equality (element-equality).",
+    "C14": " Also: the folder hands back nothing but Numbers out of the compared tables (fold-scope, shared with C06).",
+    "C15": " Also: the parser re-orders no sequence the generators walk (source-order); target and right-hand side of a compound assignment are each laid down once (once|opassign).",
+    "C16": " Also: an unwrapped Path::file_name is safe only while the grammar cannot spell `..` (path-shape); eq_complex visits the parts of same-shaped composite types once (single-visit|eq_complex).",
+    "C18": " Also: the transpiler keeps records in sequence (records-in-order); a transpile source name ends in the whole `.transpiled.mmm` (source-name).",
+}.items():
+    ADDED[_k] = (ADDED.get(_k, "") + _v).strip()
 # round 14
 for _k, _v in {
     "C03": " Also: `x op= y` is accepted only if the result fits back (opassign-result, shared with C02).",
